@@ -2,13 +2,13 @@
 # its theorems carry.  (Theorem lists are read from lean/Resgate/Properties/<id>.lean.)
 PROPS = {
     "C05": {
-        "suites": [("pure", "cancall")],
+        "suites": [("pure", "cancall"), ("gw", "access")],
         "theorems_carry": "the call-list scanner grants exactly '*' or an exact comma-separated entry, for all byte strings",
         "correspondence_only": "that the gateway consults the scanner before forwarding and carries cid/token in payloads (gateway-level runs)",
         "assumptions": ["Go strings are byte strings; the model uses lists of naturals"],
     },
     "C12": {
-        "suites": [("pure", "pattern"), ("pure", "lcs"), ("pure", "mdiff"), ("pure", "change")],
+        "suites": [("pure", "pattern"), ("pure", "lcs"), ("pure", "mdiff"), ("pure", "change"), ("gw", "reset")],
         "theorems_carry": "Match never indexes out of range; invalid patterns match nothing; the collection diff applies in range and yields the new collection for any table; equal content yields no event",
         "correspondence_only": "token-wise wildcard semantics of Match and validity of patterns (exhaustive small alphabet + spec monitor), the model diff (processResetModel), the set of resources re-fetched",
         "assumptions": ["encoding/json round trip of add/remove payloads is not modelled (exercised by applying the real events through the real handlers)"],
@@ -26,9 +26,82 @@ PROPS = {
         "assumptions": ["net/http drops header names that are not tokens", "allow-list entries are lower-cased by Config.prepare (validateAllowOrigin)"],
     },
     "C19": {
-        "suites": [("pure", "throttle")],
+        "suites": [("pure", "throttle"), ("gw", "reset"), ("gw", "mixed")],
         "theorems_carry": "running <= limit, FIFO start order, running = started - done, waiting implies all slots taken, every Done starts the next waiting callback, Done at 0 is the only panic",
         "correspondence_only": "one Done per governed request at system level (gateway-level runs)",
         "assumptions": ["Done's `go cb()` is modelled as an immediate start"],
+    },
+
+    "C01": {
+        "suites": [("gw", "refs"), ("gw", "mixed"), ("gw", "query"), ("gw", "reset")],
+        "theorems_carry": "the version-stamp mechanism: a subscriber added at any point that reads (value, version) at any later point and processes everything since ends at the resource's final value and version (snapshot_replay, for every stream and every pair of points); the gate and the cache's stamp/bump are the gateway model's own functions; legacy encoding of the four value kinds",
+        "correspondence_only": "the composition over the whole gateway (every client copy equals the announced state at quiescence): lockstep of the Lean gateway model against the real gateway on every history, plus the reference-client/announced-state monitor. Known findings D1, D17 make the full statement false of the code.",
+        "assumptions": ["service contract: an answer reflects every event published before it (the simulated service answers from its state at answer time)", "Go map iteration order is not modelled: histories avoid one connection holding two aliases of one cached resource; a disagreement must persist over 5 runs", "histories with throttles are run with monitors only (throttle slot order is a real race)"],
+    },
+    "C02": {
+        "suites": [("gw", "refs"), ("gw", "churn")],
+        "theorems_carry": "every state event the cache emits is applicable: change only on models, add/remove only on collections, index within the cached collection's bounds",
+        "correspondence_only": "the reference-graph half (no dangling reference, no stray event): lockstep of the collector model (tryDelete/Unsend/Dispose/populateResources mirrored as they are) and the reference-client monitor. Known findings D7, D9, D16, D18.",
+        "assumptions": ["reference client keeps resources it still retains when they are delivered again", "resources delivered by a get are kept while other requests of that client are pending"],
+    },
+    "C03": {
+        "suites": [("gw", "refs"), ("gw", "reset"), ("gw", "access")],
+        "theorems_carry": "queue discipline: processed ++ waiting = received for every interleaving of events, queueing starts and flushes (incl. re-queueing in the middle of a flush); mailbox FIFO and lock exclusion; what is delivered after the snapshot is a contiguous suffix of the emitted stream",
+        "correspondence_only": "that the gateway's queues are used as the abstract discipline says: lockstep + sequence-number monitor on custom events",
+        "assumptions": ["abstract queue FSM mirrors Subscription.Event/queueEvents/unqueueEvents"],
+    },
+    "C04": {
+        "suites": [("gw", "access"), ("gw", "counts")],
+        "theorems_carry": "what a get grant is (no error and get=true; every error is a denial with that error), which verdicts are cached (result or accessDenied only)",
+        "correspondence_only": "no data without a valid grant on every history: lockstep + grant monitor. Known finding D11 (deferred re-check after the hand-out).",
+        "assumptions": ["an answer to a request issued before a trigger but arriving after it counts as valid (the code re-checks right after)"],
+    },
+    "C06": {
+        "suites": [("gw", "access")],
+        "theorems_carry": "while a re-check queues events nothing is processed, afterwards all are released in arrival order; which verdicts revoke",
+        "correspondence_only": "one re-request per trigger with the current token, unsubscribe event on denial: lockstep (state snapshot includes flags, queueFlag, cached verdict) + monitors. Known finding D8.",
+        "assumptions": [],
+    },
+    "C07": {
+        "suites": [("gw", "counts"), ("gw", "malformed"), ("gw", "mixed"), ("pure", "rpc")],
+        "theorems_carry": "the dispatcher is total: every method string is version / answered invalid / handed on with a valid rid; an unsubscribe is always answered with exactly one of three outcomes",
+        "correspondence_only": "that every registered continuation runs exactly once: lockstep + response monitor at quiescence. Known findings D2, D10.",
+        "assumptions": [],
+    },
+    "C08": {
+        "suites": [("gw", "counts"), ("gw", "mixed")],
+        "theorems_carry": "unsubscribe succeeds iff 0 < count <= direct, invalidParams iff bad or non-positive count; limit 256 (regenerated constant) refuses without changing the count",
+        "correspondence_only": "refinement of direct to the number of successful responses: lockstep (direct/indirect/indirectsent in every snapshot) + count monitor. Known finding D2.",
+        "assumptions": [],
+    },
+    "C09": {
+        "suites": [("gw", "churn"), ("gw", "query"), ("gw", "mixed")],
+        "theorems_carry": "use-count bookkeeping under well-formed use: count >= 0, waiting for eviction iff count = 0, timerqueue.Add never on a queued element, a new user cancels the eviction, the last release schedules it",
+        "correspondence_only": "that every user releases exactly once and subscribe precedes get: lockstep (count, mqSub in every snapshot, S/U/Q order) + monitors incl. gauges at drain. Known findings D4, D13.",
+        "assumptions": ["eviction is fired by the harness (VerifFlushEvictions) instead of the 5 s timer"],
+    },
+    "C10": {
+        "suites": [("gw", "access"), ("gw", "mixed")],
+        "theorems_carry": "{cid} expansion: identity without the tag, validity preserved with the connection's id; every payload starts with the requester's id and carries the token handed in",
+        "correspondence_only": "that events, token events and token resets touch only the addressed connections: lockstep with 2-4 connections + frame scan for connection ids + payload cid/token monitor",
+        "assumptions": ["connection ids are unique (xid)"],
+    },
+    "C11": {
+        "suites": [("gw", "churn")],
+        "theorems_carry": "after dispose every item offered to the connection is refused and leaves the gateway state unchanged (for every gateway state)",
+        "correspondence_only": "release of exactly the connection's holdings: lockstep with disconnects at random steps + drain monitors. Known finding D4.",
+        "assumptions": [],
+    },
+    "C13": {
+        "suites": [("gw", "query")],
+        "theorems_carry": "lock exclusion (no normal item while locked), one slot per answered query request, lock clears exactly when all slots are used, FIFO afterwards",
+        "correspondence_only": "one request per cached normalised query, answers applied to that query's resource only, alias sharing: lockstep (queries/links/lock in every snapshot). Known finding D1.",
+        "assumptions": ["one connection never holds two aliases of one normalised query (Go map order)"],
+    },
+    "C15": {
+        "suites": [("gw", "malformed"), ("gw", "mixed")],
+        "theorems_carry": "malformed / wrong-kind / out-of-range state events are discarded as a whole (resource unchanged, nothing delivered); the matcher never indexes out of range; the throttle panics only on Done at zero",
+        "correspondence_only": "process-level crash freedom: the gateway runs without recover inside the harness; a crash is a violation with the logged history as replay; corpus of two fixed crashes is replayed",
+        "assumptions": ["panics inside encoding/json, gorilla, net/http are out of scope"],
     },
 }
